@@ -54,6 +54,11 @@ def make_inputs(ctx):
     rng = ctx.rng
     q = ctx.quick
     texts = [("shape", t) for t in SHAPES]
+    # constants at and beyond the limits of every integer type wherever the semantic phases evaluate or classify a constant (initialisers,
+    # array sizes, enumerators, bit-field widths, case labels, designators, alignment, escapes) and in the directive lines the lexer reads
+    from .C01 import extreme_number_inputs
+    ext = extreme_number_inputs()
+    texts += [("extreme-number", t) for t in (ext[:: 3] if q else ext)]
     for i in range(60 if q else 1500):
         r = random.Random(rng.randrange(1 << 30))
         texts.append(("cgen", Gen(r, typed=(i % 3 != 0), gnu=(i % 2 == 0), kr=(i % 4 == 0), maxdepth=3 + i % 2).program()))
